@@ -256,6 +256,36 @@ theorem savepoint_stays_restorable (fs fs1 : FS) (jobURI' : URI) (snap : JobSnap
     subst this
     exact hid a ha hid'
 
+/-- **restart_ids_fresh** (D49 repaired): a job started from a savepoint never hands out a checkpoint id again that
+is the savepoint's or that of a job snapshot file still in its file store (checkpoints written after the savepoint
+by the run that is being rolled back). The first id it hands out — for a checkpoint or a savepoint — is above all
+of them, so its publication does not rewrite any existing job snapshot file (in particular not the one a later
+savepoint's `job.savepoint` was copied from). -/
+theorem restart_ids_fresh (L : Lister) (fs fs' : FS) (sid : Nat) (s : JobSnap) (st : Store)
+    (h : startStore L fs sid = (fs', some (s, st))) (n : Nat) :
+    ∃ k, (createCheckpoint st n).2 = .ckpt k ∧ (createSavepoint st n).2 = .sp k true ∧ s.id < k ∧
+      (∀ id c, read fs' (.work (jobURI id)) = some c → id < k) ∧ read fs' (.work (jobURI k)) = none := by
+  unfold startStore at h
+  cases hl : loadFromSavepoint L fs sid with
+  | mk w r =>
+    rw [hl] at h
+    cases r with
+    | none => simp at h
+    | some s' =>
+      simp only [Prod.mk.injEq, Option.some.injEq] at h
+      obtain ⟨hw, hs, hst⟩ := h
+      subst hw hs hst
+      have hfresh : ∀ id c, read w (.work (jobURI id)) = some c → id < max s'.id (newestLocalId w) + 1 := by
+        intro id c hc
+        have := le_newestLocalId id w c hc
+        have := Nat.le_max_right s'.id (newestLocalId w)
+        omega
+      refine ⟨max s'.id (newestLocalId w) + 1, by simp [createCheckpoint], by simp [createSavepoint], ?_, hfresh, ?_⟩
+      · have := Nat.le_max_left s'.id (newestLocalId w); omega
+      · cases hr : read w (.work (jobURI (max s'.id (newestLocalId w) + 1))) with
+        | none => rfl
+        | some c => have := hfresh _ c hr; omega
+
 /-- **artPath_injective**: the place of a file inside a savepoint directory is computed from the file's own
 directory AND base name, so two different files of the same savepoint never share a place — in particular not two
 tables with the same number in two instance directories (an operator redeployed in a new directory keeps
